@@ -412,7 +412,7 @@ func nai(r *Rng) string {
 
 func derCert(r *Rng) Hex {
 	body := []byte("ue-" + imsi(r) + "-certificate-")
-	body = append(body, r.Bytes(r.Range(20, 200))...)
+	body = append(body, r.Bytes(r.Range(240, 900))...) // real certificates are 256..65535 octets: the two-octet DER length form
 	l := len(body)
 	return append([]byte{0x30, 0x82, byte(l >> 8), byte(l)}, body...)
 }
